@@ -25,6 +25,9 @@ var TagSpellings = []struct {
 	{"gomacro-ignore-json-dash", `json:"-" gomacro:"ignore"`},
 	{"opaque-typescript", `gomacro-opaque:"typescript"`},
 	{"opaque-dart-name", `json:"{name}_op" gomacro-opaque:"dart"`},
+	{"opaque-dart-untagged", `gomacro-opaque:"dart"`},
+	{"opaque-dart-dash-name", `json:"{name}-op" gomacro-opaque:"dart"`},
+	{"opaque-both-upper", `json:"{NAME}" gomacro-opaque:"dart,typescript"`},
 	{"name-with-dash", `json:"{name}-x"`},
 	{"name-upper", `json:"{NAME}"`},
 	{"name-string-option", `json:"{name}_s,string"`},
